@@ -490,10 +490,311 @@ func (bc *boundsCtx) sliceOK(s *Symer, lits func() []Lit, x *ssa.Slice) string {
 			return "high bound <= len established"
 		}
 	}
+	if bc.linearWithin(s, lits(), x) {
+		return "bounds are linear combinations covered by a tested length"
+	}
 	if !bc.unprovenAt(x) {
 		return "proved by the compiler"
 	}
 	return ""
+}
+
+// ---- linear bounds ------------------------------------------------------
+//
+// x[lo:hi] is in range if a dominating test established len(x) >= E and, as
+// linear combinations over the same symbolic terms, 0 <= lo <= hi <= E, where
+// every term that does not cancel is known to be non-negative (a length, an
+// unsigned value, or the result of a function that returns such a combination).
+// A call to a function of the module that returns one arithmetic expression is
+// replaced by that expression in the caller's terms (AddrHdrLen() = 16 +
+// DstAddrType.Length() + SrcAddrType.Length()).
+
+type linTerm struct {
+	sym string
+	v   ssa.Value
+}
+
+type linForm struct {
+	k        int64
+	pos, neg []linTerm
+	ok       bool
+}
+
+func (bc *boundsCtx) linear(s *Symer, v ssa.Value, subst func(string) string, depth int) linForm {
+	f := linForm{ok: true}
+	var walk func(x ssa.Value, sign int64, s *Symer, subst func(string) string, depth int)
+	walk = func(x ssa.Value, sign int64, s *Symer, subst func(string) string, depth int) {
+		if c, ok := foldInt(x); ok {
+			f.k += sign * c
+			return
+		}
+		switch y := x.(type) {
+		case *ssa.BinOp:
+			switch y.Op {
+			case token.ADD:
+				walk(y.X, sign, s, subst, depth)
+				walk(y.Y, sign, s, subst, depth)
+				return
+			case token.SUB:
+				walk(y.X, sign, s, subst, depth)
+				walk(y.Y, -sign, s, subst, depth)
+				return
+			}
+		case *ssa.Convert:
+			// a value-preserving integer conversion of an arithmetic expression
+			if _, isBin := y.X.(*ssa.BinOp); isBin && valuePreservingConv(y) {
+				walk(y.X, sign, s, subst, depth)
+				return
+			}
+		case *ssa.Call:
+			h := y.Common().StaticCallee()
+			if depth > 0 && h != nil && h.Blocks != nil && inModule(h) && h.Signature.Results().Len() == 1 {
+				var ret *ssa.Return
+				n := 0
+				for _, b := range h.Blocks {
+					if r, ok := b.Instrs[len(b.Instrs)-1].(*ssa.Return); ok {
+						ret = r
+						n++
+					}
+				}
+				if n == 1 && isArithmetic(ret.Results[0]) {
+					hs := NewSymer()
+					fr := &frame{fn: h, syms: hs, subst: map[string]string{}}
+					for i, p := range h.Params {
+						if i < len(y.Common().Args) {
+							a := s.Sym(y.Common().Args[i])
+							if subst != nil {
+								a = subst(a)
+							}
+							fr.subst[hs.Sym(p)] = a
+						}
+					}
+					walk(ret.Results[0], sign, hs, fr.resolve, depth-1)
+					return
+				}
+			}
+		}
+		sym := s.Sym(x)
+		if subst != nil {
+			sym = subst(sym)
+		}
+		if strings.Contains(sym, "…") || strings.HasPrefix(sym, "phi(") || sym == "" {
+			f.ok = false
+		}
+		if sign > 0 {
+			f.pos = append(f.pos, linTerm{sym, x})
+		} else {
+			f.neg = append(f.neg, linTerm{sym, x})
+		}
+	}
+	walk(v, 1, s, subst, depth)
+	return f
+}
+
+// valuePreservingConv: integer to wider integer of the same signedness, or
+// unsigned to a strictly wider signed integer.
+func valuePreservingConv(cv *ssa.Convert) bool {
+	src, ok1 := cv.X.Type().Underlying().(*types.Basic)
+	dst, ok2 := cv.Type().Underlying().(*types.Basic)
+	if !ok1 || !ok2 || src.Info()&types.IsInteger == 0 || dst.Info()&types.IsInteger == 0 {
+		return false
+	}
+	size := func(b *types.Basic) int {
+		switch b.Kind() {
+		case types.Int8, types.Uint8:
+			return 1
+		case types.Int16, types.Uint16:
+			return 2
+		case types.Int32, types.Uint32:
+			return 4
+		}
+		return 8
+	}
+	su, du := src.Info()&types.IsUnsigned != 0, dst.Info()&types.IsUnsigned != 0
+	switch {
+	case su == du:
+		return size(dst) >= size(src)
+	case su && !du:
+		return size(dst) > size(src)
+	}
+	return false
+}
+
+// isArithmetic: the value is built from +, - and * (not a bare load or call).
+func isArithmetic(v ssa.Value) bool {
+	bo, ok := v.(*ssa.BinOp)
+	return ok && (bo.Op == token.ADD || bo.Op == token.SUB || bo.Op == token.MUL)
+}
+
+// nonNegTerm: the value cannot be negative.
+func nonNegTerm(v ssa.Value, depth int) bool {
+	if k, ok := foldInt(v); ok {
+		return k >= 0
+	}
+	if lenArg(v) != nil {
+		return true
+	}
+	if b, ok := v.Type().Underlying().(*types.Basic); ok && b.Info()&types.IsUnsigned != 0 {
+		return true
+	}
+	switch y := v.(type) {
+	case *ssa.Convert:
+		if b, ok := y.X.Type().Underlying().(*types.Basic); ok && b.Info()&types.IsUnsigned != 0 {
+			switch b.Kind() {
+			case types.Uint8, types.Uint16, types.Uint32:
+				return isWideInt(y.Type())
+			}
+		}
+		return false
+	case *ssa.BinOp:
+		switch y.Op {
+		case token.ADD, token.MUL:
+			return nonNegTerm(y.X, depth) && nonNegTerm(y.Y, depth)
+		case token.AND:
+			return nonNegTerm(y.X, depth) || nonNegTerm(y.Y, depth)
+		case token.SHR:
+			return nonNegTerm(y.X, depth)
+		}
+	case *ssa.Call:
+		h := y.Common().StaticCallee()
+		if depth <= 0 || h == nil || h.Blocks == nil || !inModule(h) {
+			return false
+		}
+		n := 0
+		for _, b := range h.Blocks {
+			if r, ok := b.Instrs[len(b.Instrs)-1].(*ssa.Return); ok {
+				n++
+				if len(r.Results) != 1 || !nonNegTerm(r.Results[0], depth-1) {
+					return false
+				}
+			}
+		}
+		return n > 0
+	case *ssa.Phi:
+		for _, e := range y.Edges {
+			if e == ssa.Value(y) || !nonNegTerm(e, depth-1) {
+				if e != ssa.Value(y) {
+					return false
+				}
+			}
+		}
+		return depth > 0
+	}
+	return false
+}
+
+// linLeq: a <= b for linear forms, every non-cancelling term being non-negative.
+func linLeq(a, b linForm) bool {
+	if !a.ok || !b.ok {
+		return false
+	}
+	// d = b - a
+	k := b.k - a.k
+	pos := append(append([]linTerm{}, b.pos...), a.neg...)
+	neg := append(append([]linTerm{}, b.neg...), a.pos...)
+	for i := 0; i < len(pos); i++ {
+		for j := 0; j < len(neg); j++ {
+			if pos[i].sym == neg[j].sym {
+				pos = append(pos[:i], pos[i+1:]...)
+				neg = append(neg[:j], neg[j+1:]...)
+				i--
+				break
+			}
+		}
+	}
+	if k < 0 || len(neg) > 0 {
+		return false
+	}
+	for _, t := range pos {
+		if !nonNegTerm(t.v, 3) {
+			return false
+		}
+	}
+	return true
+}
+
+func (bc *boundsCtx) linearWithin(s *Symer, lits []Lit, x *ssa.Slice) bool {
+	if x.Max != nil {
+		return false
+	}
+	if _, isStr := x.X.Type().Underlying().(*types.Basic); isStr {
+		return false
+	}
+	zero := linForm{ok: true}
+	lo := zero
+	if x.Low != nil {
+		lo = bc.linear(s, x.Low, nil, 2)
+	}
+	// tested facts of the form X >= K: X - K is non-negative
+	var facts []linForm
+	for _, l := range lits {
+		if l.Kind != "lt" {
+			continue
+		}
+		if !l.Pos {
+			if k, ok := foldInt(l.Y); ok && lenArg(l.X) == nil {
+				f := bc.linear(s, l.X, nil, 2)
+				f.k -= k
+				facts = append(facts, f)
+			}
+		} else if k, ok := foldInt(l.X); ok && lenArg(l.Y) == nil {
+			f := bc.linear(s, l.Y, nil, 2)
+			f.k -= k + 1
+			facts = append(facts, f)
+		}
+	}
+	leq := func(a, b linForm) bool {
+		if linLeq(a, b) {
+			return true
+		}
+		for _, f := range facts {
+			// a + f <= b with f >= 0 implies a <= b
+			af := linForm{k: a.k + f.k, ok: a.ok && f.ok}
+			af.pos = append(append([]linTerm{}, a.pos...), f.pos...)
+			af.neg = append(append([]linTerm{}, a.neg...), f.neg...)
+			if linLeq(af, b) {
+				return true
+			}
+		}
+		return false
+	}
+	if !leq(zero, lo) {
+		return false
+	}
+	for _, l := range lits {
+		if l.Kind != "lt" {
+			continue
+		}
+		var e linForm
+		switch {
+		case !l.Pos:
+			// !(len(x) < E): len(x) >= E
+			a := lenArg(l.X)
+			if a == nil || !sameVal(s, a, x.X) {
+				continue
+			}
+			e = bc.linear(s, l.Y, nil, 2)
+		default:
+			// E < len(x): len(x) >= E + 1
+			a := lenArg(l.Y)
+			if a == nil || !sameVal(s, a, x.X) {
+				continue
+			}
+			e = bc.linear(s, l.X, nil, 2)
+			e.k++
+		}
+		if x.High == nil {
+			if leq(lo, e) {
+				return true
+			}
+			continue
+		}
+		hi := bc.linear(s, x.High, nil, 2)
+		if leq(lo, hi) && leq(hi, e) {
+			return true
+		}
+	}
+	return false
 }
 
 // reservedLen: v is the byte slice returned by SerializeBuffer.PrependBytes(k) /
